@@ -42,8 +42,12 @@ def check(src, rep):
     E = lambda: Engine(M, keep_props=set())
     pf, pr, pi = E().run(B.methods["failure"]), E().run(B.methods["reset"]), E().run(B.methods["__init__"])
     pc = E().run(B.methods["current_delay_sec"])
-    state = _fields_written(pf) | _fields_written(pr)
+    state = _fields_written(pf)
     rep.require(len(state) == 1, f"back-off state is not a single field: {sorted(state)}")
+    extra_reset = _fields_written(pr) - state
+    if extra_reset:
+        rep.violation("R1", f"{MOD}.ExponentialBackOff.reset", "reset-writes-configuration", f"reset() also overwrites {sorted(extra_reset)}: a configured maximum delay is silently discarded by the first successful "
+                      "connection, so later delays are capped by the default instead", file, B.methods["reset"].node.lineno)
     D = state.pop()
     DF = ("f0", SELF, D)
     # max delay field: the other field read by current_delay_sec
@@ -212,6 +216,11 @@ def check(src, rep):
                 bad3 += 1
                 rep.violation("R3", f"{MOD}.ConnectionManager.{tc.name}", "sleep-before-connect", "the back-off is positive but the attempt does not sleep exactly that time before connecting",
                               file, tc.node.lineno, witness=f"slept {[show_sv(x[1])[:60] for x in slept_before]}")
+    exc_types = {g[1].split(".")[-1] for p in ps for g, _, _ in p.guards if g[0] == "exc"}
+    if n_conn and not ({"Exception", "BaseException"} & exc_types):
+        bad2 += 1
+        rep.violation("R2", f"{MOD}.ConnectionManager.{tc.name}", "failure-on-error", f"only {sorted(exc_types - {'CancelledError'})} raised by the factory count as a failed attempt: any other error leaves "
+                      "the connect task without failure(), and the next attempt follows immediately (no back-off)", file, tc.node.lineno)
     if n_conn and not bad2:
         rep.ok("R2", f"{tc.name}: {n_conn} connecting paths", "reset() exactly once after a successful factory call and nowhere else; failure() exactly once on its Exception path; nothing on cancellation")
     if n_conn and not bad3:
